@@ -16,7 +16,7 @@ Seeds == {
        additionalProperties |-> FalseS]),
   Sch([type |-> "object", title |-> "T",
        properties |-> << <<"a", Ty("integer")>>, <<"b", Sch([default |-> JStr("")])>> >>,
-       required |-> <<"a", "b">>]),
+       required |-> <<"a", "b">>, minProperties |-> 0]),
   Sch([itemsT |-> << Ty("integer"), Ty("string") >>, additionalItems |-> FalseS,
        contains |-> Sch([const |-> JInt(1)])]),
   Sch([type |-> "integer",
